@@ -391,7 +391,7 @@ pub fn generate(args: &Args, rec: &mut Recorder) {
         for (comb, variants, kind) in &cfgs {
             for kv in variants {
                 let np = nports(comb, kv);
-                let strict = *comb == "resolve" && kv.contains("waker=1");
+                let strict = false;
                 for items in small_inputs(*kind, np) {
                     for (ri, r) in rscripts.iter().enumerate() {
                         for (fi, f) in fscripts.iter().enumerate() {
@@ -429,7 +429,7 @@ pub fn generate(args: &Args, rec: &mut Recorder) {
         let items: Vec<String> = (0..n_items).map(|_| gen_item(&mut rng, *kind, np.max(1))).collect();
         let max_bits = if thorough { 14 } else { 9 };
         let downs: Vec<(String, String)> = (0..np).map(|_| (rand_bits(&mut rng, max_bits), rand_bits(&mut rng, max_bits))).collect();
-        let strict = *comb == "resolve" && kv.contains("waker=1");
+        let strict = false;
         if rng.chance(7, 10) {
             let n_pend = rng.below(4) as usize;
             let places: Vec<usize> = (0..n_pend).map(|_| rng.below(items.len() as u64 + 1) as usize).collect();
